@@ -136,7 +136,7 @@ def bounded_sequences(pid, tier, seed):
     findings = Findings()
     samples = []
     names2 = NAMES[:2]
-    depth = 4 if tier == "quick" else 5
+    depth = 4   # 20**4 = 160 000 sequences; depth 5 (3.2 M) does not fit a check, the thorough tier adds random depth instead
     mut = ["add", "update", "remove", "enable", "disable", "up", "down", "replace"]
     # exhaustive: all sequences of `depth` mutating operations over 2 names (argument pairs chosen per op)
     alphabet = []
@@ -164,11 +164,11 @@ def bounded_sequences(pid, tier, seed):
                 findings.note((pid, "sequence"), " ; ".join("%s(%s,%s)" % s_ for s_ in seq[:k + 1]), prob)
                 break
     rng = random.Random(seed or 1)
-    for _ in range(300 if tier == "quick" else 3000):
+    for _ in range(300 if tier == "quick" else 20000):
         fs = factory.FiltersSet("s")
         model = Model()
         seq = []
-        for k in range(8):
+        for k in range(8 if tier == "quick" else 12):
             op = rng.choice(mut)
             n1, n2 = rng.choice(NAMES), rng.choice(NAMES)
             seq.append((op, n1, n2))
@@ -181,7 +181,7 @@ def bounded_sequences(pid, tier, seed):
             if len(samples) < 2:
                 samples.append({"sequence": ["%s(%s,%s)" % s_ for s_ in seq], "verdict": "agrees with the list model at every step"})
     return {"name": "operation-sequences", "bound": "all %d sequences of %d mutating operations over 2 names (exhaustive) + seeded random "
-            "sequences of 8 over 3 names: %d steps, each followed by getfilter/filter_exists/is_filter_disabled probes and a "
+            "sequences of 8 (thorough: 12) over 3 names: %d steps, each followed by getfilter/filter_exists/is_filter_disabled probes and a "
             "rendering check" % (count, depth, evals), "rule": "distinct = operation sequence", "evaluations": evals, "distinct": count,
             "samples": samples, "exhaustive": True, "violations": findings.violations(pid, "sequences", (pid,))}
 
@@ -327,12 +327,16 @@ def bounded_readback(pid, tier, seed):
         for (ck, cond) in conds:
             for (ak, act) in acts[:4] if tier == "quick" else acts:
                 for mt in ("anyof", "allof"):
-                    for mode in ("original", "disabled", "reloaded"):
+                    for mode in ("original", "disabled", "reloaded", "updated"):
                         evals += 1
                         distinct.add((ck, ak, v, mt, mode))
                         try:
                             fs = FiltersSet("t")
-                            fs.addfilter("rule", [cond, ("Subject", ":is", "second")], [act], mt)
+                            if mode == "updated":
+                                fs.addfilter("rule", [("Subject", ":is", "old")], [("discard",)], "anyof" if mt == "allof" else "allof")
+                                fs.updatefilter("rule", "rule", [cond, ("Subject", ":is", "second")], [act], mt)
+                            else:
+                                fs.addfilter("rule", [cond, ("Subject", ":is", "second")], [act], mt)
                             if mode == "disabled":
                                 fs.disablefilter("rule")
                             if mode == "reloaded":
@@ -356,7 +360,7 @@ def bounded_readback(pid, tier, seed):
                             findings.note((pid, "matchtype"), mt, "read back %r (%s)" % (gm, mode))
                         elif len(samples) < 3 and mode == "reloaded" and vclass != "other":
                             samples.append({"condition": repr(cond), "action": repr(act), "mode": mode, "verdict": "read back unchanged"})
-    return {"name": "read-back", "bound": "%d condition forms x actions x %d values x {anyof, allof} x {original, disabled, reloaded}: %d cases"
+    return {"name": "read-back", "bound": "%d condition forms x actions x %d values x {anyof, allof} x {original, disabled, reloaded, updated}: %d cases"
             % (len(condition_forms("v")) - 1, len(values), evals), "rule": "distinct = (condition kind, action kind, value, match type, mode)",
             "evaluations": evals, "distinct": len(distinct), "samples": samples, "exhaustive": True,
             "violations": findings.violations(pid, "readback", (pid,))}
@@ -377,7 +381,7 @@ def bounded_saveload(pid, tier, seed):
     samples = []
     names = ["a", "b b", "café", "n#3", "Filter", "x: y"]
     descs = [None, "", "a description", "déjà vu", "with # hash", "colon: inside"]
-    markers = [("# Filter: ", "# Description: "), ("# rule:", "# desc:"), ("#N=", "#D=")]
+    markers = [("# Filter: ", "# Description: "), ("# rule:", "# desc:"), ("#N=", "#D="), ("# [filter] ", "# (desc) "), ("# name? ", "# note+ ")]
     conds = [c for k, c in condition_forms("v") if k not in ("header-name",)]
     acts = [a for k, a in action_forms("v") if k not in ("keep-flags", "fileinto-flags", "vacation-seconds")]
     n_seq = 150 if tier == "quick" else 1500
